@@ -72,7 +72,7 @@ TWIN_MEMO = {}  # the fresh-process observation of the current directed M (share
 POOL = {}  # data-array buffers shared by every model of the monitored process that is built in "shared-buffers" mode
 
 
-def perturb_node(n, j):
+def perturb_node(n, j, views=True):
     """the same recipe with other data: every float array / matrix constant rescaled and shifted"""
     if not isinstance(n, list) or not n:
         return n
@@ -86,10 +86,26 @@ def perturb_node(n, j):
     if n[0] in ("arr", "arr2") and len(n) == 2:
         return [n[0], num(n[1])]
     if n[0] in ("qf", "dotQ"):
-        return [n[0], perturb_node(n[1], j), num(n[2])] + [perturb_node(x, j) for x in n[3:]]
+        return [n[0], perturb_node(n[1], j, views), num(n[2])] + [perturb_node(x, j, views) for x in n[3:]]
     if n[0] == "mv":
-        return [n[0], num(n[1]), perturb_node(n[2], j)]
-    return [perturb_node(x, j) if isinstance(x, list) else x for x in n]
+        return [n[0], num(n[1]), perturb_node(n[2], j, views)] + list(n[3:])
+    if n[0] == "slice" and views and isinstance(n[1], list):
+        # another view with the same generated name and size but other elements / another order
+        a_, b_, c_ = n[2], n[3], n[4]
+        if (a_, b_, c_) == (None, None, -1):
+            return ["slice", perturb_node(n[1], j, views), None, None, None]
+        if (a_, b_, c_) == (None, None, None):
+            return ["slice", perturb_node(n[1], j, views), None, None, -1]
+        if isinstance(a_, int) and isinstance(b_, int) and c_ in (None, 1) and 0 < a_ < b_:
+            return ["slice", perturb_node(n[1], j, views), b_ - 1, a_ - 1, -1]
+        if isinstance(a_, int) and isinstance(b_, int) and c_ == -1 and a_ > b_ >= 0:
+            return ["slice", perturb_node(n[1], j, views), b_ + 1, a_ + 1, None]
+    if n[0] == "row" and views and isinstance(n[1], list):
+        return ["rows", perturb_node(n[1], j, views), n[2], None, None, -1]
+    if n[0] == "rows" and views and isinstance(n[1], list) and n[5] in (None, 1) and isinstance(n[3], int) and isinstance(n[4], int):
+        # another window of the same row with the same length (A[i, 0:2] / A[i, 1:3] are both "A[i,:]")
+        return ["rows", perturb_node(n[1], j, views), n[2], n[3] + 1, n[4] + 1, n[5]] if j % 2 else ["rows", perturb_node(n[1], j, views), n[2], max(0, n[3] - 1), n[4] - 1 if n[3] > 0 else n[4], n[5]]
+    return [perturb_node(x, j, views) if isinstance(x, list) else x for x in n]
 
 
 def perturb_decls(decls, j, what):
@@ -115,15 +131,15 @@ def run_perturbed_twin(Mrec, j, pool, rec, what):
     if "node" in Mrec:
         case2 = dict(Mrec)
         case2["decls"] = perturb_decls(Mrec["decls"], j, what)
-        case2["node"] = perturb_node(Mrec["node"], j)
+        case2["node"] = perturb_node(Mrec["node"], j, views=what in (1, 3, 4))
         touch_expr(case2, pool, rec, rotate=(1 + j % 3) if what in (0, 4) else 0)
         if what == 4:
             touch_expr(case2, pool, rec, rotate=0)
     else:
         prob2 = dict(Mrec["prob"])
         prob2["decls"] = perturb_decls(prob2["decls"], j, what)
-        prob2["objective"] = perturb_node(prob2["objective"], j)
-        prob2["constraints"] = [perturb_node(c, j) for c in prob2["constraints"]]
+        prob2["objective"] = perturb_node(prob2["objective"], j, views=what in (1, 3, 4))
+        prob2["constraints"] = [perturb_node(c, j, views=what in (1, 3, 4)) for c in prob2["constraints"]]
         b = B.Builder(prob2["decls"], buffers=pool)
         P = b.problem(prob2)
         with warnings.catch_warnings():
@@ -250,8 +266,10 @@ def collide(rng, decls, k, rec, Vnames=None, Mrec=None, pool=None):
                     AD.gradient(po * v0, v0)
                     float(np.asarray(C.compile_gradient(po * v0 + v0 * v0, [v0])(np.array([0.5]))).reshape(-1)[0])
                 continue
-            # a small model over the same names
+            # a small model over the same names; Python bool / int literals as operands where a later model writes floats
+            flag, off = bool(j % 2), (j % 3 == 0)
             e = (v0 * 2.0 + 1.0) ** 2 + optyx.sin(svars[(j + 1) % len(svars)]) * (1.0 + j % 3)
+            e = e + flag * (v0 - 3) ** 2 + (not flag) * v0 + (v0 + off) * 1 + 0 * v0 + optyx.exp(v0 * True) * False
             for pn, po in list(b.params.items())[:1]:
                 e = e + po * v0
             V = sorted(e.get_variables(), key=lambda v: v.name)
@@ -618,7 +636,16 @@ def run(ctx, rec):
             run_shared_constraint_pair(rec, rng, twin, m_, v_)
     # systematic sweep: every node family of the grammar as M (bare / `f - c` / `c * f`), after a short prefix that ends with M's own
     # recipe under other data, bounds, parameter values and symmetric flags
-    fams = X.directed_families()
+    a_, b_ = ["var", "a"], ["var", "b"]
+    lit = lambda v: ["raw", v, "float"]  # noqa: E731
+    sq_ = lambda e: ["bin", "**", e, ["raw", 2, "int"]]  # noqa: E731
+    fams = X.directed_families() + [
+        # functions of literal constants (the literals 1.0 / 0.0 / 2.0 written as plain Python floats inside the model)
+        ("literal:exp(1.0),atan(1.0)", ["bin", "+", sq_(["bin", "-", a_, ["fn", "exp", lit(1.0)]]), sq_(["bin", "-", b_, ["bin", "*", lit(4.0), ["fn", "atan", lit(1.0)]]])]),
+        ("literal:cos(0.0),sinh(1.0)", ["bin", "+", ["bin", "*", a_, ["fn", "cos", lit(0.0)]], ["bin", "*", sq_(b_), ["fn", "sinh", lit(1.0)]]]),
+        ("literal:log2(2.0),tanh(1.0)", ["bin", "-", ["bin", "*", ["fn", "log2", lit(2.0)], sq_(a_)], ["bin", "*", b_, ["fn", "tanh", lit(1.0)]]]),
+        ("literal:negated", ["bin", "+", ["bin", "*", a_, ["neg", ["const", 1.0, "float"]]], ["bin", "*", ["fn", "exp", ["neg", lit(1.0)]], sq_(b_)]]),
+    ]
     for fi, (fam, node) in enumerate(fams):
         for wrap in range(3):
             if not ctx.mine(fi):
